@@ -1,5 +1,162 @@
-/- Engine `osc` (C01): not built yet. -/
+/-
+  Engine `osc` (C01).  One op line = one constructor call followed by every reader.
+
+    <mode> <cap> <addr-hex> <tags-hex> <rest-hex> <arg-token>*        mode ∈ A V M L<k>
+    R <bytes-hex>                                                      raw length query
+
+  arg tokens, one per payload tag:  w<8 hex>  q<16 hex>  m<8 hex>  s<hex|->
+                                    b<len>:<hex|-|N>    (N = NULL data pointer)
+  In mode V (varargs) the token of an 'f' tag is q<16 hex>: the promoted double.
+  `cap` = size of the destination block (`N` = NULL buffer).  `rest` = bytes placed
+  behind the message before the readers and rtosc_message_length run.
+
+  Output:  r=<ret> z=<ret with NULL buffer> b=<whole destination block>
+           [len=.. as=<off>:<tags> n=.. ty=.. av=.. it=..]      (only when ret > 0)
+  If the model predicts an out-of-bounds store or read, the line is the sanitizer's
+  verdict `crash:asan:heap-buffer-overflow`.
+-/
+import RtoscModel.Osc.Length
 import Driver.Common
 namespace Driver.OscEngine
-def engine : Driver.Engine := Driver.stateless (fun _ => "unimplemented")
+open Rtosc Rtosc.Osc
+
+def crash : String := "crash:asan:heap-buffer-overflow"
+
+def natOfBytes (bs : Bytes) : Nat := bs.foldl (fun a b => a * 256 + b.toNat) 0
+
+def hexFixed (s : String) (n : Nat) : Option Nat :=
+  match ofHex s with
+  | some bs => if bs.length = n then some (natOfBytes bs) else none
+  | none => none
+
+def parseArg (tok : String) : Option CArg :=
+  let body := (tok.drop 1).toString
+  match tok.toList.head? with
+  | some 'w' => (hexFixed body 4).map fun n => CArg.w32 (UInt32.ofNat n)
+  | some 'q' => (hexFixed body 8).map fun n => CArg.w64 (UInt64.ofNat n)
+  | some 'm' =>
+    match ofHex body with
+    | some [a, b, c, d] => some (.midi a b c d)
+    | _ => none
+  | some 's' => (ofHex body).map CArg.str
+  | some 'b' =>
+    match body.splitOn ":" with
+    | [l, d] =>
+      match l.toInt? with
+      | none => none
+      | some len =>
+        let len32 := UInt32.ofNat ((len % 4294967296).toNat)
+        if d = "N" then some (.blob len32 none)
+        else (ofHex d).map fun data => CArg.blob len32 (some data)
+    | _ => none
+  | _ => none
+
+/-- the promoted values a call site passes for `tags` and the union members `args` -/
+def toVa : Bytes → List CArg → Option (List VaArg)
+  | [], _ => some []
+  | t :: ts, args =>
+    if !hasReserved t then toVa ts args
+    else
+      match args with
+      | [] => none
+      | a :: as =>
+        let rest := toVa ts as
+        match a with
+        | .w32 v => rest.map (VaArg.int v :: ·)
+        | .w64 v => if t = 100 ∨ t = 102 then rest.map (VaArg.dbl v :: ·) else rest.map (VaArg.i64 v :: ·)
+        | .midi a b c d => rest.map (VaArg.midi a b c d :: ·)
+        | .str s => rest.map (VaArg.cstr s :: ·)
+        | .blob len data => rest.map (fun r => VaArg.int len :: VaArg.ptr data :: r)
+
+def toAvs : Bytes → List CArg → Option (List ArgVal)
+  | [], _ => some []
+  | t :: ts, args =>
+    if !hasReserved t then (toAvs ts args).map (⟨t, none⟩ :: ·)
+    else
+      match args with
+      | [] => none
+      | a :: as => (toAvs ts as).map (⟨t, some a⟩ :: ·)
+
+def hex32 (v : UInt32) : String := toHex (put32 v)
+def hex64 (v : UInt64) : String := toHex (put64 v)
+
+def showVal (m : Bytes) (t : UInt8) (v : CVal) : Option String :=
+  let p := hexByte t ++ ":"
+  match v with
+  | .zero => some (p ++ "-")
+  | .tf b => some (p ++ (if b then "1" else "0"))
+  | .w32 x => some (p ++ hex32 x)
+  | .w64 x => some (p ++ hex64 x)
+  | .midi a b c d => some (p ++ toHex [a, b, c, d])
+  | .str off =>
+    match CVal.view m (.str off) with
+    | some (.arg (.str s)) => some (p ++ "@" ++ toString off ++ ":" ++ toHex s)
+    | _ => none
+  | .blob len off =>
+    match CVal.view m (.blob len off) with
+    | some (.arg (.blob d)) => some (p ++ toString len.toNat ++ "@" ++ toString off ++ ":" ++ toHex d)
+    | _ => none
+
+def joinOpt (xs : List (Option String)) : Option String :=
+  (xs.mapM id).map fun l => if l.isEmpty then "-" else ",".intercalate l
+
+/-- all readers on the block `m` -/
+def readers (m : Bytes) : Option String := do
+  let len ← messageLength m
+  let a ← argString m
+  let ts ← cstrAt m a
+  let n ← narguments m
+  let idx := List.range n
+  let tys ← idx.mapM (typeAt m)
+  let av ← joinOpt (idx.map fun i =>
+    match typeAt m i, argument m i with
+    | some t, some v => showVal m t v
+    | _, _ => none)
+  let itl ← iterate m
+  let it ← joinOpt (itl.map fun (t, v) => showVal m t v)
+  pure s!"len={len} as={a}:{toHex ts} n={n} ty={toHex tys} av={av} it={it}"
+
+def parseCap (s : String) : Option (Option Nat) :=
+  if s = "N" then some none else s.toNat?.map some
+
+def construct (mode : String) (buffer : Option Bytes) (addr tags : Bytes) (args : List CArg) :
+    Option AResult :=
+  if mode = "A" ∨ mode.startsWith "L" then
+    if mode = "A" then amessage buffer addr tags args
+    else (toVa tags args).bind fun va => vmessage narrowF64 buffer addr tags va
+  else if mode = "V" then (toVa tags args).bind fun va => vmessage narrowF64 buffer addr tags va
+  else if mode = "M" then (toAvs tags args).bind fun avs => avmessage buffer addr avs
+  else none
+
+def step (line : String) : String :=
+  match words line with
+  | ["R", h] =>
+    match ofHex h with
+    | some m =>
+      match messageLength m with
+      | some n => s!"len={n}"
+      | none => "hang"
+    | none => "bad-op"
+  | mode :: cap :: a :: t :: rest :: toks =>
+    match parseCap cap, ofHex a, ofHex t, ofHex rest, toks.mapM parseArg with
+    | some cap, some addr, some tags, some rest, some args =>
+      let buffer := cap.map fun c => List.replicate c (170 : UInt8)
+      match construct mode buffer addr tags args, construct mode none addr tags args with
+      | some res, some nul =>
+        if res.oob then crash
+        else
+          let head := s!"r={res.ret} z={nul.ret} b={match res.buf with | some b => toHex b | none => "NULL"}"
+          match res.buf with
+          | some b =>
+            if res.ret = 0 then head
+            else
+              match readers (b.take res.ret ++ rest) with
+              | some r => head ++ " " ++ r
+              | none => crash
+          | none => head
+      | _, _ => "unmodelled"
+    | _, _, _, _, _ => "bad-op"
+  | _ => "bad-op"
+
+def engine : Driver.Engine := Driver.stateless step
 end Driver.OscEngine
